@@ -97,8 +97,8 @@ package simplefixgo
 //@   requires h != nil && h.ctx != nil
 //@   safety[C19]
 //@   modifies outN, outAt
-//@   ensures[C19,C04,C05] @enqueued imp(err == nil, outN == old(outN) + 1 && outAt == upd(old(outAt), old(outN), string(data)))
-//@   ensures[C19,C04,C05] @refused imp(err != nil, outN == old(outN) && outAt == old(outAt))
+//@   ensures[C19,C04,C05,C06,C07,C08,C10,C14,C15,C16] @enqueued imp(err == nil, outN == old(outN) + 1 && outAt == upd(old(outAt), old(outN), string(data)))
+//@   ensures[C19,C04,C05,C06,C07,C08,C10,C14,C15,C16] @refused imp(err != nil, outN == old(outN) && outAt == old(outAt))
 
 //@ func (h *DefaultHandler) send(msg SendingMessage) (err error)
 //@   requires h != nil && h.ctx != nil && msg != nil && h.outgoingHandlers.HandlerPool != nil
@@ -114,19 +114,19 @@ package simplefixgo
 //@   call ToBytes#1: witness berr = ret1
 //@   witness all = mget(h.outgoingHandlers.HandlerPool.handlers, AllMsgTypes)
 //@   witness own = mget(h.outgoingHandlers.HandlerPool.handlers, mType(msg))
-//@   ensures[C19] @allfirst imp(0 <= j && j < c1 - old(callN), sel(callAt, old(callN) + j) == nth(all, j))
-//@   ensures[C19] @thenown imp(ok1 && 0 <= j && j < c2 - c1, sel(callAt, c1 + j) == nth(own, j))
-//@   ensures[C19] @refusal imp(!ok1 || !ok2, err != nil && outN == old(outN) && outAt == old(outAt))
-//@   ensures[C19] @nomorecalls imp(!ok1, callN == c1) && imp(ok1, callN == c2)
-//@   ensures[C19,C05] @transmitted imp(err == nil, outN == old(outN) + 1 && sel(outAt, old(outN)) == mBytes(msg))
-//@   ensures[C19] @onlyifaccepted imp(err == nil, ok1 && ok2 && berr == nil)
-//@   ensures[C19] @failed imp(err != nil, outN == old(outN) && outAt == old(outAt))
+//@   ensures[C19,C05,C06,C07,C08,C10,C14,C15,C16] @allfirst imp(0 <= j && j < c1 - old(callN), sel(callAt, old(callN) + j) == nth(all, j))
+//@   ensures[C19,C05,C06,C07,C08,C10,C14,C15,C16] @thenown imp(ok1 && 0 <= j && j < c2 - c1, sel(callAt, c1 + j) == nth(own, j))
+//@   ensures[C19,C05,C06,C07,C08,C10,C14,C15,C16] @refusal imp(!ok1 || !ok2, err != nil && outN == old(outN) && outAt == old(outAt))
+//@   ensures[C19,C05,C06,C07,C08,C10,C14,C15,C16] @nomorecalls imp(!ok1, callN == c1) && imp(ok1, callN == c2)
+//@   ensures[C19,C05,C06,C07,C08,C10,C14,C15,C16] @transmitted imp(err == nil, outN == old(outN) + 1 && sel(outAt, old(outN)) == mBytes(msg))
+//@   ensures[C19,C05,C06,C07,C08,C10,C14,C15,C16] @onlyifaccepted imp(err == nil, ok1 && ok2 && berr == nil)
+//@   ensures[C19,C05,C06,C07,C08,C10,C14,C15,C16] @failed imp(err != nil, outN == old(outN) && outAt == old(outAt))
 
 //@ func (h *DefaultHandler) Send(message SendingMessage) (err error)
 //@   requires h != nil && h.ctx != nil && message != nil && h.outgoingHandlers.HandlerPool != nil
 //@   modifies callN, callAt, callRet, outN, outAt
-//@   ensures[C19] imp(err == nil, outN == old(outN) + 1 && sel(outAt, old(outN)) == mBytes(message))
-//@   ensures[C19] imp(err != nil, outN == old(outN) && outAt == old(outAt))
+//@   ensures[C19,C05,C06,C07,C08,C10,C14,C15,C16] imp(err == nil, outN == old(outN) + 1 && sel(outAt, old(outN)) == mBytes(message))
+//@   ensures[C19,C05,C06,C07,C08,C10,C14,C15,C16] imp(err != nil, outN == old(outN) && outAt == old(outAt))
 
 // serve: every inbound message is offered to the all-types handlers and then to
 // the handlers registered for its own type (as found by an anchored MsgType lookup)
@@ -136,7 +136,7 @@ package simplefixgo
 //@   modifies callN, callAt, callRet, srvN, srvAt
 //@   epilogue srvAt = upd(srvAt, srvN, string(msg))
 //@   epilogue srvN = srvN + 1
-//@   ensures[C04] @logged srvN == old(srvN) + 1 && srvAt == upd(old(srvAt), old(srvN), string(msg))
+//@   ensures[C04,C06,C07,C09,C10,C14,C15,C16] @logged srvN == old(srvN) + 1 && srvAt == upd(old(srvAt), old(srvN), string(msg))
 //@   forall j int
 //@   call Range#1: witness c1 = callN
 //@   call Range#2:
@@ -144,10 +144,10 @@ package simplefixgo
 //@     inst j = old(callN) + j
 //@   witness all = mget(h.incomingHandlers.HandlerPool.handlers, AllMsgTypes)
 //@   witness own = mget(h.incomingHandlers.HandlerPool.handlers, fieldVal(string(msg), h.msgTypeTag))
-//@   ensures[C19,C18] @nomsgtype (err == nil) == hasField(string(msg), h.msgTypeTag)
-//@   ensures[C19] @allfirst imp(err == nil && 0 <= j && j < c1 - old(callN), sel(callAt, old(callN) + j) == nth(all, j))
-//@   ensures[C19,C18] @thenown imp(err == nil && 0 <= j && j < callN - c1, sel(callAt, c1 + j) == nth(own, j))
-//@   ensures[C19] @nothing imp(err != nil, callN == old(callN))
+//@   ensures[C19,C18,C06,C07,C09,C10,C14,C15,C16] @nomsgtype (err == nil) == hasField(string(msg), h.msgTypeTag)
+//@   ensures[C19,C06,C07,C09,C10,C14,C15,C16] @allfirst imp(err == nil && 0 <= j && j < c1 - old(callN), sel(callAt, old(callN) + j) == nth(all, j))
+//@   ensures[C19,C18,C06,C07,C09,C10,C14,C15,C16] @thenown imp(err == nil && 0 <= j && j < callN - c1, sel(callAt, c1 + j) == nth(own, j))
+//@   ensures[C19,C06,C07,C09,C10,C14,C15,C16] @nothing imp(err != nil, callN == old(callN))
 
 // A variable captured by a goroutine's closure is not assigned again by the spawner
 // (checked for every `go func(){...}()` of the module).
